@@ -563,6 +563,23 @@ Qed.
 Lemma process_logout_mono c m : mono (process_logout c m).
 Proof. unfold process_logout. mono_tac. apply disconnect_mono. Qed.
 
+Lemma logout_counted_outok c m : outok (logout_counted c m).
+Proof.
+  assert (Hn : outok (set_next_num_in m)).
+  { apply outok_quiet; try (apply set_next_num_in_pres; ins_solve). apply set_next_num_in_allev. }
+  assert (Hnm : mono (set_next_num_in m)) by (apply mono_pres, set_next_num_in_pres; ins_solve).
+  assert (Hpm : mono (persist_in m)) by (apply mono_pres, persist_in_pres; ins_solve).
+  unfold logout_counted. ok_step; [apply outok_lift| |].
+  - ok_step; [apply outok_getw| |].
+    + ok_step; [|apply process_logout_outok|apply process_logout_mono].
+      destruct (_ =? _); [|apply outok_ret]. ok_step; [apply Hn|apply persist_in_outok|apply Hpm].
+    + mono_step; [destruct (_ =? _); [mono_step; [apply Hnm|apply Hpm]|apply mono_ret]|apply process_logout_mono].
+  - mono_step; [mono_tac|]. mono_step; [destruct (_ =? _); [mono_step; [apply Hnm|apply Hpm]|apply mono_ret]|apply process_logout_mono].
+Qed.
+
+Lemma logout_counted_mono c m : mono (logout_counted c m).
+Proof. apply mono_pres, logout_counted_pres. ins_solve. Qed.
+
 Lemma process_testrequest_outok c m : outok (process_testrequest c m).
 Proof. unfold process_testrequest. apply send_msg_new_outok. reflexivity. Qed.
 
@@ -777,6 +794,37 @@ Proof.
   mono_step; [destruct (_ <? _); [apply send_msg_retrans_mono, gap_fill_skip|mono_tac]|]. mono_tac.
 Qed.
 
+Lemma outstep_rv {A B} w (r : res A) (v : B + exn) : OutStep w r -> OutStep w (mkR v (rw r) (re r)).
+Proof. intros [A1 A2 A3 A4]. constructor; cbn [rv rw re]; auto. Qed.
+
+Lemma mono_finally {A} (c : M A) (g : M unit) : mono c -> mono g -> mono (finally_ c g).
+Proof.
+  intros Hc Hg w. unfold finally_. specialize (Hc w). specialize (Hg (rw (c w))).
+  destruct (rv (g (rw (c w)))); cbn [rw]; lia.
+Qed.
+
+Lemma outokA_finally {A} (c : M A) (g : M unit) : outokA c -> outok g -> mono g -> outokA (finally_ c g).
+Proof.
+  intros Hc Hg Hm w Hi Ha [Hlo Hhi]. unfold finally_ in *.
+  assert (Hhi' : nout (rw (g (rw (c w)))) <= I64MAX + 1) by (destruct (rv (g (rw (c w)))); exact Hhi).
+  assert (S1 : OutStep w (c w)).
+  { apply Hc; [exact Hi|exact Ha|]. split; [exact Hlo|]. specialize (Hm (rw (c w))). lia. }
+  assert (S2 : OutStep (rw (c w)) (g (rw (c w)))).
+  { apply Hg; [apply S1|]. split; [|exact Hhi']. rewrite (os_nout _ _ S1). lia. }
+  pose proof (outstep_compose w (c w) (g (rw (c w))) S1 S2) as S.
+  destruct (rv (g (rw (c w)))); apply (outstep_rv w _ _ S).
+Qed.
+
+Lemma restore_handling_outok : outok restore_handling.
+Proof.
+  intros w Hi Hr. unfold restore_handling in *. rewrite bind_unfold in *. cbn [getw rv rw re app] in *.
+  destruct (st w =? ST_HANDLING) eqn:E; [|apply outstep_id; exact Hi].
+  apply outstep_eta. apply state_set_outokA; [exact Hi|unfold alive; stlia|exact Hr].
+Qed.
+
+Lemma restore_handling_mono : mono restore_handling.
+Proof. unfold restore_handling. mono_tac. Qed.
+
 (* everything dispatch does keeps the invariant on a live connection (dispatch is only reached on one) *)
 Lemma dispatch_outokA c m v : outokA (dispatch c m v).
 Proof.
@@ -789,7 +837,7 @@ Proof.
     - mono_tac. }
   unfold dispatch. destruct (mkind m); try apply outok_A, outok_ret.
   - apply outok_A, Hd.
-  - apply process_resend_outokA.
+  - apply outokA_finally; [apply process_resend_outokA|apply restore_handling_outok|apply restore_handling_mono].
   - apply outok_A, process_testrequest_outok.
   - apply outok_A, process_heartbeat_outok.
   - apply outok_A, Hd.
@@ -799,7 +847,7 @@ Lemma dispatch_mono c m v : mono (dispatch c m v).
 Proof.
   unfold dispatch. destruct (mkind m); try apply mono_ret.
   - destruct v; mono_tac.
-  - apply process_resend_mono.
+  - apply mono_finally; [apply process_resend_mono|apply restore_handling_mono].
   - apply send_msg_mono. reflexivity.
   - unfold process_heartbeat. mono_tac. apply disconnect_mono.
   - destruct v; mono_tac.
@@ -863,11 +911,11 @@ Proof.
   - destruct (mkind m); try apply outok_A, outok_ret.
     + apply process_logon_outokA.
     + apply outok_A, process_seqreset_outok.
-    + apply outok_A, process_logout_outok.
+    + apply outok_A, logout_counted_outok.
   - destruct (mkind m); try apply mono_ret.
     + apply process_logon_mono.
     + apply process_seqreset_mono.
-    + apply process_logout_mono.
+    + apply logout_counted_mono.
   - destruct (st w0 =? ST_NCE); [|keeps_tac].
     keeps_step; [apply state_set_keeps_alive; stlia|apply keeps_modw; intros w H; exact H].
 Qed.
@@ -877,7 +925,7 @@ Proof.
   unfold pre_handlers. mono_step; [mono_tac|]. destruct (mkind m); try apply mono_ret.
   - apply process_logon_mono.
   - apply process_seqreset_mono.
-  - apply process_logout_mono.
+  - apply logout_counted_mono.
 Qed.
 
 Lemma part1_outok c m : outok (part1 c m).
@@ -1272,7 +1320,7 @@ Proof.
     rewrite bind_unfold. unfold pre_handlers. rewrite E2. rewrite bind_unfold. cbn [ret rv rw re app].
     assert (Hpre : (match mkind m with
                     | KLogon => process_logon c m | KSeqReset => process_seqreset c m
-                    | KLogout => process_logout c m | _ => ret tt end) w = mkR (inl tt) w []).
+                    | KLogout => logout_counted c m | _ => ret tt end) w = mkR (inl tt) w []).
     { destruct Hk as [Hk|[Hk|[Hk|Hk]]]; rewrite Hk; reflexivity. }
     rewrite Hpre. cbn [rv rw re app].
     unfold gap_check. rewrite bind_unfold. cbn [getw rv rw re app].
